@@ -4,6 +4,8 @@ import Babble.Proofs.HGReceived
 import Babble.Proofs.DagVote
 import Babble.Proofs.HGLamport
 import Babble.Proofs.HGRoundReceived
+import Babble.Proofs.HGAncLamport
+import Babble.Proofs.HGWitnessUnique
 /-! # C04 — committed order extends causality; events are committed whole and once
     About the operational model `Babble.HG` (no quorum reasoning, any validator-set behaviour) and,
     for the two causality clauses, about the declarative model `Babble.Dag` (static validator set;
@@ -113,6 +115,20 @@ theorem lamport_respects_ancestry_operational (g : List Nat) (es : List Ev) (hnd
     | some eb =>
       rw [ha] at hta; rw [hb] at htb
       exact ⟨ea, eb, ta, tb, rfl, rfl, by simpa using hta, by simpa using htb, hlt⟩
+
+/-- the same with the reachability relation of C07 — the relation `ancestor_eq_reachability` proves
+    equal to the Go `ancestor` predicate: a stored ancestor other than the event itself has a strictly
+    smaller Lamport timestamp -/
+theorem lamport_respects_reachability (g : List Nat) (es : List Ev) (hnd : (es.map (·.id)).Nodup)
+    (hfresh : ∀ e ∈ es, e.id ≠ "" ∧ e.lamport = none ∧ e.rr = none) (a b : String) (hab : a ≠ b)
+    (h : Anc (runAll (St.init g) es).events a b) :
+    ∃ ea eb ta tb, (runAll (St.init g) es).get a = some ea ∧ (runAll (St.init g) es).get b = some eb ∧
+      ea.lamport = some ta ∧ eb.lamport = some tb ∧ ta < tb := by
+  have hI : AdmInv (runAll (St.init g) es).events :=
+    Babble.Props.C07.admission_invariant g es (fun x hx => (hfresh x hx).1) (HG.nodup_hash hnd)
+  rcases HG.anc_proper _ hI a b h with heq | hpa
+  · exact absurd heq hab
+  · exact lamport_respects_ancestry_operational g es hnd hfresh a b hpa
 
 /-- **the committed order of a block extends ancestry** (operational model): in any state in which
     the Lamport invariant holds — every state reachable by insertions from genesis
